@@ -179,8 +179,8 @@ func (m *Manager) getPrimaryStatus(status map[string]interface{}) map[string]int
 	// Get WAL sequence information before taking the primary's lock: a client write holds
 	// the WAL mutex while it takes that lock
 	currentWalSeq := uint64(0)
-	if m.primary.wal != nil {
-		currentWalSeq = m.primary.wal.GetNextSequence() - 1 // Last used sequence
+	if w := m.primary.currentWAL(); w != nil {
+		currentWalSeq = w.GetNextSequence() - 1 // Last used sequence
 	}
 
 	// Get detailed primary status
